@@ -215,6 +215,15 @@ func TestC09Range(t *testing.T) {
 
 	rapid.Check(t, prop(r, func(t *rapid.T) {
 		ts := filterType(t, 4, true)
+
+		// Attribute names are any member names: with a dash or an underscore
+		// inside, non-ASCII.
+		for i := range ts.Attrs {
+			if rapid.IntRange(0, 2).Draw(t, "oddname") == 0 {
+				ts.Attrs[i].Name = fmt.Sprintf(rapid.SampledFrom([]string{"w-%d", "a%d-b", "a_%d", "é%d", "a-b-%d", "id%d", "a%d-id"}).Draw(t, "oddname-form"), i)
+			}
+		}
+
 		n := rapid.IntRange(0, gen.Upto(t, "n", 12)).Draw(t, "n")
 		if n < 4 && rapid.Bool().Draw(t, "more") {
 			n += 5
